@@ -1,7 +1,6 @@
 package main
 
 import (
-	"sync"
 	"crypto/sha1"
 	"encoding/json"
 	"fmt"
@@ -9,6 +8,7 @@ import (
 	"os/exec"
 	"path/filepath"
 	"strings"
+	"sync"
 
 	"verif/engine/sym"
 )
@@ -240,7 +240,20 @@ func nativeReplay(harness, label, modelPath string) (bool, string) {
 	if label == "no-panic" {
 		return strings.Contains(s, "VRT-PANIC"), s
 	}
-	return strings.Contains(s, "VRT-ASSERT-FAILED "+label+"\n") || strings.Contains(s, "VRT-ASSERT-FAILED "+label+" "), s
+	if strings.Contains(s, "VRT-ASSERT-FAILED "+label+"\n") || strings.Contains(s, "VRT-ASSERT-FAILED "+label+" ") {
+		return true, s
+	}
+	// The same inputs make the real code fail ANOTHER assertion of the same harness (typically an
+	// earlier one: a stage that is environment in the symbolic run, such as the import optimiser,
+	// really fails on the broken text). The input violates the property all the same.
+	if i := strings.Index(s, "VRT-ASSERT-FAILED "); i >= 0 {
+		line := s[i:]
+		if j := strings.IndexByte(line, '\n'); j >= 0 {
+			line = line[:j]
+		}
+		return true, "NOTE: natively the same inputs fail a different assertion of the harness: " + line + "\n" + s
+	}
+	return false, s
 }
 
 func cmdReplay(prop, path string) int {
